@@ -472,4 +472,113 @@ theorem parseRegularQuantity_ev (hc : Ctx off w Pv ts) (h : GE Pv ts e s) :
       · rw [g2.g.toks]; exact hall
       · intro _ _ h0; cases h0
 
+theorem rtrim_prefix (p : Tok → Bool) (l : List Tok) : ∃ suf, l = (l.reverse.dropWhile p).reverse ++ suf := by
+  have hsplit := List.takeWhile_append_dropWhile (p := p) (l := l.reverse)
+  refine ⟨(l.reverse.takeWhile p).reverse, ?_⟩
+  rw [← List.reverse_append, hsplit, List.reverse_reverse]
+
+theorem RunIn.headStartNe {o : Nat} {l : List Tok} (h : RunIn off w o l) (hne : l ≠ []) (d : Nat) :
+    RunIn off w ((l.head?.map (·.start)).getD d) l := by
+  cases l with
+  | nil => exact absurd rfl hne
+  | cons t r => simp only [List.head?_cons, Option.map_some, Option.getD_some]; rw [h.cons.1]; exact h
+
+theorem parseAdvancedQuantity_ev (hc : Ctx off w Pv ts) (h : GE Pv ts e s) :
+    Sat (parseAdvancedQuantity (α := α)) s (fun r s' => GE Pv ts e s' ∧ OptOK (PQRet off w) r) := by
+  unfold parseAdvancedQuantity
+  refine Sat.bind (allToks_sat h.g ?_)
+  dsimp only
+  split
+  · exact Sat.pure ⟨h, trivial⟩
+  refine Sat.bind (Sat.mono (scalingLock_ev hc h) ?_)
+  rintro lock s1 ⟨g1, c1, hlock⟩
+  unfold wsComments
+  refine Sat.bind (Sat.mono (consumeWhile_ge _ g1) ?_)
+  rintro _ s2 ⟨g2, c2, -, -, hend2⟩
+  refine Sat.bind (Sat.mono (consumeWhile_ge _ g2) ?_)
+  rintro vt s3 ⟨g3, c3, hvt, -, -⟩
+  split
+  · exact Sat.pure ⟨g3, trivial⟩
+  rename_i l hl
+  split
+  · exact Sat.pure ⟨g3, trivial⟩
+  have hne : (vt.reverse.dropWhile (fun t => t.kind == .ws || t.kind == .blockComment)).reverse ≠ [] := by
+    cases hv : vt with
+    | nil => rw [hv] at hl; simp at hl
+    | cons t rest =>
+      rw [hv] at hvt
+      have ht := hend2 t (slice_head hvt.symm)
+      apply rtrim_ne_nil _ _ t (by simp)
+      simp only [isWsComment, Bool.or_eq_false_iff] at ht
+      simp [ht.1.1, ht.2]
+  have hrv : RunIn off w (offAt ts s2.cur)
+      (vt.reverse.dropWhile (fun t => t.kind == .ws || t.kind == .blockComment)).reverse := by
+    obtain ⟨suf, hsuf⟩ := rtrim_prefix (fun t => t.kind == .ws || t.kind == .blockComment) vt
+    have h0 : RunIn off w (offAt ts s2.cur) vt := by rw [hvt]; exact hc.wfi.slice c3
+    rw [hsuf] at h0
+    exact h0.append.1
+  split
+  · rename_i hemp
+    exfalso; apply hne
+    simpa using hemp
+  refine Sat.bind (Sat.mono (consumeRest_ge g3) ?_)
+  rintro ut s5 ⟨g5, c5, hut⟩
+  split
+  · exact Sat.pure ⟨g5, trivial⟩
+  rename_i hutne
+  have hutne' : ut ≠ [] := by intro h0; rw [h0] at hutne; simp at hutne
+  try dsimp only
+  refine Sat.bind (hasExt_sat g5.g ?_)
+  split
+  · exact Sat.pure ⟨g5, trivial⟩
+  rename_i r hr
+  have hrun : RunIn off w (offAt ts s3.cur) ut := by rw [hut]; exact hc.wfi.slice g3.le
+  apply Sat.bind
+  apply Sat.mono (Q := fun _ s' => GE Pv ts e s')
+  · split
+    · exact Sat.pure g5
+    · rename_i d
+      refine Sat.bind (Sat.pushEv ?_)
+      exact Sat.pure (g5.push (hc.diag _ (numOrRange_err hrv.toksOK hr)).1)
+  rintro v s6 g6
+  have hunit := hrun.headStartNe hutne' 0
+  refine Sat.bind (bpText_sat hunit.run ?_)
+  refine Sat.bind (tokensSpanP_sat hc.wfi.ne ?_)
+  refine Sat.pure ⟨g6, ⟨hc.wfi.all, ⟨hrv.tokensSpan hne, hlock⟩, hunit.text⟩, trivial, ?_⟩
+  intro _ _ h0; cases h0
+
+/-- `parse_quantity`: the sub-parser over the tokens between the braces -/
+theorem parseQuantity_ev {q : List Tok} (hc : Ctx off w Pv ts) (hq : WFI off w q) (h : GE Pv ts e s) :
+    Sat (parseQuantity (α := α) q) s (fun r s' => GE Pv ts e s' ∧ s'.cur = s.cur ∧ PQRet off w r) := by
+  unfold parseQuantity
+  have hne : q.isEmpty = false := by
+    have := hq.ne
+    cases q <;> simp_all
+  have hcq : Ctx off w Pv q := ⟨hq, hc.diag⟩
+  simp only [hne, Bool.false_eq_true, if_false]
+  refine Sat.bind (Sat.get ?_)
+  refine Sat.bind (Sat.set ?_)
+  have g0 : GE Pv q e ({ s with toks := q, cur := 0 } : BP α) :=
+    ⟨⟨rfl, h.g.ext, h.g.panic, Nat.zero_le _⟩, h.evs⟩
+  apply Sat.bind
+  apply Sat.mono (Q := fun r s' => GE Pv q e s' ∧ OptOK (PQRet off w) r)
+  · refine Sat.bind (hasExt_sat g0.g ?_)
+    split
+    · apply withRecover_sat
+      refine Sat.mono (parseAdvancedQuantity_ev hcq g0) ?_
+      rintro r s1 ⟨g1, hr⟩
+      cases r with
+      | none => exact ⟨g1.setCur (Nat.zero_le _), trivial⟩
+      | some b => exact ⟨g1, hr⟩
+    · exact Sat.pure ⟨g0, trivial⟩
+  rintro adv s1 ⟨g1, hadv⟩
+  apply Sat.bind
+  apply Sat.mono (Q := fun r s' => GE Pv q e s' ∧ PQRet off w r)
+  · split
+    · exact Sat.pure ⟨g1, hadv⟩
+    · exact parseRegularQuantity_ev hcq g1
+  rintro r s2 ⟨g2, hr⟩
+  refine Sat.bind (Sat.modify ?_)
+  exact Sat.pure ⟨⟨⟨h.g.toks, g2.g.ext, g2.g.panic, h.g.le⟩, g2.evs⟩, rfl, hr⟩
+
 end Cook
